@@ -90,7 +90,14 @@ pub async fn main() -> Result<(), Box<dyn std::error::Error>> {
             let mut buf = [0u8; 2048];
             let mut bytes_read = 0;
             loop {
-                let n = tcp_stream.read(&mut buf[bytes_read..]).await?;
+                let n = match tcp_stream.read(&mut buf[bytes_read..]).await {
+                    Ok(n) => n,
+                    Err(e) => {
+                        // A failing client connection must not take the exporter down
+                        tracing::warn!("Metrics connection failed while reading request: {e}");
+                        continue 'accept;
+                    }
+                };
 
                 // The client closed the connection before sending a full request
                 if n == 0 {
@@ -120,10 +127,8 @@ pub async fn main() -> Result<(), Box<dyn std::error::Error>> {
         }
 
         buf.clear();
-        match handler(&mut buf, &observation_socket_path).await {
-            Ok(()) => {
-                tcp_stream.write_all(buf.as_bytes()).await?;
-            }
+        let write_result = match handler(&mut buf, &observation_socket_path).await {
+            Ok(()) => tcp_stream.write_all(buf.as_bytes()).await,
             Err(e) => {
                 log::warn!("error: {e}");
                 const ERROR_REPONSE: &str = concat!(
@@ -132,8 +137,12 @@ pub async fn main() -> Result<(), Box<dyn std::error::Error>> {
                     "content-length: 0\r\n\r\n",
                 );
 
-                tcp_stream.write_all(ERROR_REPONSE.as_bytes()).await?;
+                tcp_stream.write_all(ERROR_REPONSE.as_bytes()).await
             }
+        };
+
+        if let Err(e) = write_result {
+            tracing::warn!("Metrics connection failed while writing response: {e}");
         }
     }
 }
